@@ -164,11 +164,17 @@ impl<'ast, 'decls> ResolveIterator<'ast, 'decls>
                                 span,
                                 &util::BigInt::from(cur_bank_data.cur_position))?;
     
-                        cur_bank_data.cur_position += bits_until_alignment(
+                        let padding = bits_until_alignment(
                             report,
                             span,
                             cur_address_in_bits,
                             label_align)?;
+
+                        cur_bank_data.cur_position = advance_position(
+                            report,
+                            span,
+                            cur_bank_data.cur_position,
+                            padding)?;
                     }
                 }
 
@@ -392,11 +398,17 @@ impl<'ast, 'decls> ResolveIterator<'ast, 'decls>
                         span,
                         &util::BigInt::from(cur_bank_data.cur_position))?;
 
-                cur_bank_data.cur_position += bits_until_alignment(
+                let padding = bits_until_alignment(
                     report,
                     span,
                     cur_address_in_bits,
                     align.align_size)?;
+
+                cur_bank_data.cur_position = advance_position(
+                    report,
+                    span,
+                    cur_bank_data.cur_position,
+                    padding)?;
             }
 
             asm::AstAny::DirectiveAddr(ast_addr) =>
